@@ -282,6 +282,49 @@ func c25GenSys(c *Ctx, u int) *c25Sys {
 			s.inits[i] = sortedSubset(r, u, []float64{0, 0.15, 0.4, 0.8}[r.Intn(4)])
 		}
 	}
+	// intersections: complement (or other non-union) operands first, half of the time
+	for i := 0; i < n; i++ {
+		if s.ops[i] == 1 && r.Intn(2) == 0 {
+			sort.SliceStable(s.edges[i], func(a, b int) bool { return s.ops[s.edges[i][a]] == 2 && s.ops[s.edges[i][b]] != 2 })
+		}
+	}
+	// planted shape: a union cycle whose members have base sets with large elements and edges that leave
+	// the cycle towards sets with smaller elements
+	if n >= 4 && r.Intn(5) == 0 {
+		var us []int
+		for i := 0; i < n; i++ {
+			if s.ops[i] == 0 {
+				us = append(us, i)
+			}
+		}
+		if len(us) >= 3 {
+			r.Shuffle(len(us), func(a, b int) { us[a], us[b] = us[b], us[a] })
+			k := 2 + r.Intn(3)
+			if k > len(us)-1 {
+				k = len(us) - 1
+			}
+			cyc, out := us[:k], us[k:]
+			for j, v := range cyc {
+				s.edges[v] = append(s.edges[v], cyc[(j+1)%k])
+				s.inits[v] = nil
+				for x := u / 2; x < u; x++ {
+					if r.Intn(2) == 0 {
+						s.inits[v] = append(s.inits[v], x)
+					}
+				}
+				if r.Intn(3) != 0 {
+					o := out[r.Intn(len(out))]
+					s.edges[v] = append(s.edges[v], o)
+					s.inits[o] = nil
+					for x := 0; x < (u+1)/2; x++ {
+						if r.Intn(3) != 0 {
+							s.inits[o] = append(s.inits[o], x)
+						}
+					}
+				}
+			}
+		}
+	}
 	// Include edges of union nodes: forward (acyclic) and backward (cycles through later nodes)
 	dens := []float64{0.05, 0.15, 0.3}[r.Intn(3)]
 	back := []float64{0, 0.1, 0.3}[r.Intn(3)]
@@ -307,8 +350,9 @@ func c25Closure(c *Ctx) {
 	c.Rule = "CLOSURE: random equation systems built through the public API of util/set (0-12 nodes, mostly 3-12; Add with random subsets of 0..u-1, u<=8; " +
 		"Intersect of 0-4 earlier nodes; Complement of an earlier node; Include edges forward and backward so that cycles run through unions, intersections and complements; " +
 		"single-node, two-node and empty systems) run through the real NewClosure(0)/Compute and compared with the mirror; every system is also solved by a brute-force oracle " +
-		"(Warshall reachability, components in dependency order, Kleene iteration on bit masks over 0..u where u stands for all unmentioned integers) and run a second time with " +
-		"NewClosure(u+1) (storage reuse); non-trivial = at least 3 nodes and one dependency cycle or intersection/complement node; distinct by system."
+		"(Warshall reachability, components in dependency order, Kleene iteration on bit masks over 0..u where u stands for all unmentioned integers) and run again with " +
+		"two other scratch-buffer sizes, NewClosure(1..3) and NewClosure(u+1 .. 3u+8) (storage reuse: results that fit the buffer alias it), each compared with the oracle; a fifth of the systems " +
+		"contain a planted union cycle of 2-4 members with non-empty base sets and edges leaving the cycle towards sets with smaller elements; intersections put complement operands first half of the time; non-trivial = at least 3 nodes and one dependency cycle or intersection/complement node; distinct by system."
 	// probe: storage reuse in slowClosure
 	w, wu := c25AliasWitness()
 	_, wsets, _ := w.run(wu)
@@ -316,13 +360,13 @@ func c25Closure(c *Ctx) {
 	c.Extra["closure_alias_probe_failed"] = aliasDefect
 	if aliasDefect {
 		c.Notes = append(c.Notes, "alias probe FAILED on the real set.Closure: NewClosure(10), ~{3} & {1,2,3} = "+fmt.Sprint(wsets[len(wsets)-1])+
-			" (expected [1 2]); systems with an intersection node are run with a reuse buffer only under VERIF_FINDINGS=1 [C25-closure-buf-alias]")
-		c.Rule += " AVOIDED CLASS (known defect [C25-closure-buf-alias], probe failed): NewClosure(bufSize>0) on systems whose result differs from NewClosure(0), " +
-			"i.e. intersection nodes whose running result is co-finite and lives in the reuse buffer; such runs are only counted. Also avoided: a single-node system " +
+			" (expected [1 2]); systems with an intersection node are run with a reuse buffer only under VERIF_FINDINGS=1 [C25-intersect-alias]")
+		c.Rule += " AVOIDED CLASS (known defect [C25-intersect-alias], probe failed): runs with NewClosure(bufSize>0) of systems that have an intersection node with at least two operands whose " +
+			"FIRST operand is co-finite in the least solution (any such node when an error is expected); these runs are only counted. Also avoided: a single-node system " +
 			"consisting of Intersect() alone (Compute does nothing below two nodes; finding [C25-single-node])."
-		if findings {
-			c.Violate("[C25-closure-buf-alias] slowClosure intersects into the reuse buffer that holds its own left operand: NewClosure(10); x=Add{3}; y=Add{1,2,3}; Intersect(Complement(x), y) = "+
-				fmt.Sprint(wsets[len(wsets)-1])+", set semantics say [1 2]", "[C25-closure-buf-alias] "+w.line()+" bufSize=10")
+		{
+			c.Violate("[C25-intersect-alias] slowClosure intersects into the reuse buffer that holds its own left operand: NewClosure(10); x=Add{3}; y=Add{1,2,3}; Intersect(Complement(x), y) = "+
+				fmt.Sprint(wsets[len(wsets)-1])+", set semantics say [1 2]", "[C25-intersect-alias] "+w.line()+" bufSize=10")
 		}
 	}
 	n := c.N(3000, 120000)
@@ -391,16 +435,31 @@ func c25Closure(c *Ctx) {
 		if len(s.ops) >= 2 || len(s.ops) == 0 || s.ops[0] == 0 {
 			check("", ans, sets, isErr, 0)
 		}
-		// oracle 2: same system with storage reuse
-		ans2, sets2, isErr2 := s.run(u + 1)
-		if ans2 != ans {
-			if aliasDefect && !findings {
-				c.Count("closure bufSize>0 differs (avoided class)")
-			} else {
-				check("[C25-closure-buf-alias] ", ans2, sets2, isErr2, u+1)
+		// oracle 2: the same system with storage reuse (scratch buffers of other sizes)
+		inClass := false // the avoided class of [C25-intersect-alias]
+		for v, op := range s.ops {
+			if op == 1 && len(s.edges[v]) >= 2 {
+				if wantErr || least[s.edges[v][0]]>>uint(u)&1 == 1 {
+					inClass = true
+				}
 			}
-		} else {
-			c.Count("closure bufSize>0 agrees")
+		}
+		for _, bs := range []int{1 + c.Rng.Intn(3), u + 1 + c.Rng.Intn(2*u+8)} {
+			ans2, sets2, isErr2 := s.run(bs)
+			switch {
+			case inClass && aliasDefect && !findings:
+				c.Count("closure bufSize>0 skipped (avoided class)")
+			case inClass && aliasDefect:
+				if ans2 != ans {
+					check("[C25-intersect-alias] ", ans2, sets2, isErr2, bs)
+				}
+			default:
+				if len(s.ops) >= 2 || len(s.ops) == 0 || s.ops[0] == 0 {
+					if check("", ans2, sets2, isErr2, bs) {
+						c.Count("closure bufSize>0 agrees with the oracle")
+					}
+				}
+			}
 		}
 	}
 	if findings {
